@@ -1081,6 +1081,13 @@ def exchangeBatch (fo : FilterObj) (extra : List RelID) (add rem : List Comp)
     let (newT, _, _, rr) ← findOrCreateTable t oldMask add rem rels
     if rr then relRemoved := true
     bts := bts ++ [{ oldT := t, newT, len := T.len }]
+  -- Go registers the targets ONCE, right after the planning loop and unconditionally (also when no
+  -- table is selected or every selected table is empty), before any callback runs.  (The
+  -- `registerTargets rels` at the end of `exchangeTable` is kept: after this registration it is the
+  -- identity on the flags — it only sets to `true` flags that are `true` already.  `setRelationsBatch`:
+  -- Go registers after its planning loop, the model after the moves, both unconditionally — the
+  -- final flags agree.)
+  registerTargets rels
   -- the lock is taken only now (Go: after the planning loop and `registerTargets`): a panic of
   -- `findOrCreateTable` above must not leave the world locked.  No callback has run so far.
   let l ← lock
